@@ -7,6 +7,7 @@ RULES = {
     "O1": "the sequence stored in a snapshot must encode queue position: flagged iff the listing function reached from PriceLevel::snapshot reads no ticket-queue state and orders its result solely by map iteration and the user-supplied timestamp",
     "O2": "restore pushes the listed orders in listed order (forward iteration, one push per element)",
     "O3": "the listing is not re-ordered by anything else (exactly one sort, keyed on timestamp() alone, ascending)",
+    "O4": "both levels queue the same way: the live queue's primitives keep their FIFO shape (push = insert + ticket; pop = entry of the ticket taken; remove only deletes the map entry) and nobody else touches the containers, so the original and the restored level order identical pushes identically",
 }
 
 
@@ -34,6 +35,10 @@ def run(ctx, chk):
                  "consulted, so a restored level trades in timestamp order, not in the original queue order (orders added with timestamps 5 then 1 swap)")
     else:
         chk.ok("O1", tv.defp, tv.span)
+    Q.rule_push(chk, "O4", "O4")
+    Q.rule_pop(chk, "O4", "O4", "O4")
+    Q.rule_remove_find(chk, "O4")
+    Q.who_may(chk, "O4")
     Q.rule_constructors(chk, "O2")
     Q.rule_to_vec(chk, "O3")
     # restore path: from_snapshot builds the queue from snapshot.orders via From<Vec>
